@@ -1,13 +1,12 @@
 (* Properties/C30.v — Chunked uploads store exactly the decoded payload.
-   PARTIAL: the faithful model refutes two of the three claims of the property (below, by computation on
-   concrete witnesses that are replayed on the real server).  The general positive theorems of DESIGN §7
-   (decode (encode payload chunking) = payload for every chunking; rejection of every single-point
-   tamper under HMAC/hash injectivity) are NOT proved here; that half rests on the executed
-   correspondence + the direct oracle only. *)
-From Verif Require Import Bytes Codec AwsChunked AwsChunkedProofs.
+   Positive half (general, part 2 of this file): decode (encode …) = payload for EVERY payload, EVERY chunking and the
+   four streaming modes; a non-verifying chunk signature (= modified chunk bytes or size field under
+   token consistency), a non-verifying final-chunk signature, a wrong trailer checksum or trailer
+   signature on a complete body => Reject.  Signatures / checksums are opaque tokens supplied consistently.
+   Negative half (part 1): three claims of the property are refuted on the faithful model by concrete
+   witnesses replayed on the real server. *)
+From Verif Require Import Bytes Codec AwsChunked AwsChunkedSpec AwsChunkedProofs.
 
-Definition cr : byte := x0d.
-Definition CRLF : bytes := [x0d; x0a].
 Definition cfgU : cfg := {| has_trailer := false; trailer_signed := false; skip_val := true; tname := [];
                             exp_sigs := []; exp_tsig := []; exp_ck := [] |}.
 (* STREAMING-UNSIGNED-PAYLOAD-TRAILER with x-amz-checksum-crc32; [ck] = the checksum that matches the carried data *)
@@ -89,3 +88,100 @@ Example C30_ex_tamper_rejected :
   decode cfgS (B"3" ++ CRLF ++ B"abc" ++ CRLF ++ B"0;chunk-signature={1}" ++ CRLF ++ CRLF) = Reject /\
   decode cfgS (B"3;chunk-signature={0}" ++ CRLF ++ B"abc" ++ CRLF ++ B"0;chunk-signature={0}" ++ CRLF ++ CRLF) = Reject.
 Proof. vm_compute. repeat split. Qed.
+
+(* claim 3: a declared trailer checksum is verified.  Full form for the unsigned-trailer mode: a checksum
+   line for a supported algorithm whose value is not the checksum of the carried data is rejected *)
+Definition C30_wrong_checksum_rejected_full : Prop :=
+  forall c chs name value,
+    has_trailer c = true -> trailer_signed c = false -> skip_val c = true -> Forall wf_chunk chs ->
+    plain name = true -> name <> [] -> ~ In ":"%byte name -> mem_bytes (to_lower name) known_algos = true ->
+    plain value = true -> value <> exp_ck c ->
+    decode c (enc false chs B"0" [] (canonical_trailer false name value [])) = Reject.
+
+(* refuted: x-amz-trailer: x-amz-meta-note,x-amz-checksum-crc32 — no hasher is created for the list value and it
+   does not start with "x-amz-checksum-", so validateTrailerChecksum returns nil *)
+Theorem C30_declared_checksum_unverified : ~ C30_wrong_checksum_rejected_full.
+Proof.
+  intros H.
+  specialize (H {| has_trailer := true; trailer_signed := false; skip_val := true;
+                   tname := B"x-amz-meta-note,x-amz-checksum-crc32"; exp_sigs := []; exp_tsig := []; exp_ck := B"NhCmhg==" |}
+                [] B"x-amz-checksum-crc32" B"AAAAAA==" eq_refl eq_refl eq_refl (Forall_nil _) eq_refl).
+  assert (E : Stored [] = Reject).
+  { apply H; try reflexivity; try discriminate. cbn. intuition discriminate. }
+  discriminate E.
+Qed.
+Print Assumptions C30_declared_checksum_unverified.
+
+(* ---------------------------------------------------------------------------------------------
+   part 2: what does hold, for ALL payloads and chunkings.
+   A chunk is (size field hs : 1*HEXDIG with value = length data > 0, signature token without CR/LF, data);
+   [enc signed chs hs0 sgf tr] is the wire format (Spec/AwsChunkedSpec.v); signed = not skip_val. *)
+
+(* every well-formed upload decodes to exactly its payload: any cfg (= any of the four modes), any chunk list
+   (any sizes, any data bytes incl. CR/LF/';'), any zero size field (0, 00, …); the expected tokens are
+   consistent with the carried ones; trailer modes: the canonical trailer section
+   name:value CRLF [x-amz-trailer-signature:ts CRLF] CRLF with the declared name (any case) and the matching tokens *)
+Theorem C30_decode_encode : forall c chs hs0 sgf tr name value ts,
+  Forall wf_chunk chs -> hexstr hs0 = true -> hexv hs0 = 0%N -> tok_ok sgf = true ->
+  (skip_val c = true \/
+   forall i sg, nth_error (map c_sig chs ++ [sgf]) i = Some sg -> nth_error (exp_sigs c) i = Some sg) ->
+  (has_trailer c = false \/
+   ((tr = canonical_trailer (trailer_signed c) name value ts /\
+     mem_bytes (tname c) known_algos = true /\ plain name = true /\ name <> [] /\ ~ In ":"%byte name /\
+     to_lower name = tname c /\ plain value = true /\ plain ts = true) /\
+    value = exp_ck c /\ (trailer_signed c = true -> ts = exp_tsig c))) ->
+  decode c (enc (negb (skip_val c)) chs hs0 sgf tr) = Stored (concat (map c_data chs)).
+Proof. exact decode_encode_canonical. Qed.
+Print Assumptions C30_decode_encode.
+
+(* signed modes: after any honest prefix, a chunk whose signature token does not verify — which is what a
+   modified data byte or a modified size field means when tokens are consistent (the expected token is the one
+   for the bytes actually framed) — is rejected as soon as it is completely present, whatever follows *)
+Theorem C30_tamper_rejected_chunk : forall c chs hs sg Y,
+  skip_val c = false -> Forall wf_chunk chs ->
+  (skip_val c = true \/ forall i s, nth_error (map c_sig chs) i = Some s -> nth_error (exp_sigs c) i = Some s) ->
+  hexstr hs = true -> (0 < hexv hs < 18446744073709551616)%N -> tok_ok sg = true ->
+  nth_error (exp_sigs c) (length chs) <> Some sg -> (hexv hs + 2 <= lenN Y)%N ->
+  decode c (enc_chunks true chs ++ hs ++ sig_ext ++ sg ++ CRLF ++ Y) = Reject.
+Proof. exact tamper_chunk_canonical. Qed.
+Print Assumptions C30_tamper_rejected_chunk.
+
+(* signed modes: a terminating chunk whose signature does not verify (forged terminator after a cut at a chunk
+   boundary, modified final signature) is rejected, whatever the trailer section *)
+Theorem C30_tamper_rejected_final_signature : forall c chs hs0 sgf tr,
+  skip_val c = false -> Forall wf_chunk chs ->
+  (skip_val c = true \/ forall i s, nth_error (map c_sig chs) i = Some s -> nth_error (exp_sigs c) i = Some s) ->
+  hexstr hs0 = true -> hexv hs0 = 0%N -> tok_ok sgf = true ->
+  nth_error (exp_sigs c) (length chs) <> Some sgf ->
+  decode c (enc true chs hs0 sgf tr) = Reject.
+Proof. exact tamper_final_sig_canonical. Qed.
+Print Assumptions C30_tamper_rejected_final_signature.
+
+(* trailer modes, complete body, checksum declared as the sole x-amz-trailer name: a checksum value that is not the
+   checksum of the carried data (modified chunk in the unsigned mode, or modified trailer), or a wrong trailer
+   signature, is rejected *)
+Theorem C30_tamper_rejected_trailer : forall c chs hs0 sgf name value ts,
+  has_trailer c = true ->
+  Forall wf_chunk chs -> hexstr hs0 = true -> hexv hs0 = 0%N -> tok_ok sgf = true ->
+  (skip_val c = true \/ forall i s, nth_error (map c_sig chs) i = Some s -> nth_error (exp_sigs c) i = Some s) ->
+  (mem_bytes (tname c) known_algos = true /\ plain name = true /\ name <> [] /\ ~ In ":"%byte name /\
+   to_lower name = tname c /\ plain value = true /\ plain ts = true) ->
+  value <> exp_ck c \/ (trailer_signed c = true /\ ts <> exp_tsig c) ->
+  decode c (enc (negb (skip_val c)) chs hs0 sgf (canonical_trailer (trailer_signed c) name value ts)) = Reject.
+Proof.
+  intros c chs hs0 sgf name value ts Hht Hwf Hhs Hz Htok Hs Hform Hbad.
+  apply tamper_trailer_canonical; try assumption. split; [reflexivity|exact Hform].
+Qed.
+Print Assumptions C30_tamper_rejected_trailer.
+
+(* non-vacuity: the hypotheses are satisfiable by the concrete uploads used above *)
+Example C30_ex_wf : wf_chunk {| c_hs := B"0A"; c_sig := B"{0}"; c_data := B"0123456789" |}.
+Proof. unfold wf_chunk. cbn. repeat split; reflexivity || lia. Qed.
+Example C30_ex_encode :
+  enc true [{| c_hs := B"3"; c_sig := B"{0}"; c_data := B"abc" |}; {| c_hs := B"3"; c_sig := B"{1}"; c_data := B"def" |}]
+      B"0" B"{2}" CRLF = signed_body.
+Proof. reflexivity. Qed.
+Example C30_ex_trailer :
+  canonical_trailer true B"X-Amz-Checksum-Crc32" B"NhCmhg==" B"{t}" =
+  B"X-Amz-Checksum-Crc32:NhCmhg==" ++ CRLF ++ B"x-amz-trailer-signature:{t}" ++ CRLF ++ CRLF.
+Proof. reflexivity. Qed.
